@@ -36,8 +36,10 @@ H0 == [ urgent |-> FALSE, family |-> "", done |-> FALSE,
         cmd |-> <<>>, tg |-> <<>>, rq |-> <<>>, svc |-> <<>>,
         inst |-> <<>>, oldlb |-> {}, rlb |-> <<>>, pauseSeq |-> 0 ]
 
+\* mess:  commands that change the target groups (deploy kinds, remove) overlapped on this service
+\* messP: pause-type commands overlapped each other (or a remove): the pause state is no longer definite
 NewSvc == [ cur |-> NoCmd, curR |-> NoCmd, pstate |-> "running", pdef |-> TRUE, pcmd |-> NoCmd,
-            pending |-> {}, mess |-> FALSE, split |-> FALSE ]
+            pending |-> {}, mess |-> FALSE, messP |-> FALSE, split |-> FALSE, binds |-> {}, live |-> FALSE ]
 
 NewTg(c) == [ grp |-> c, okSeq |-> 0, okT |-> 0, repSeq |-> 0, repT |-> 0, repCls |-> "",
               probeT |-> -1, probeN |-> 0, inProbe |-> FALSE, nbeg |-> 0, retSeq |-> 0, retT |-> 0,
@@ -62,8 +64,17 @@ UpdCmdCall(h, e) ==
       c    == [ kind |-> e.kind, svc |-> s, targets |-> tgs, call |-> e.seq, callT |-> e.t,
                 ret |-> 0, retT |-> 0, res |-> "", dto |-> e.dto, drto |-> e.drto,
                 maxPause |-> e.max_pause, msg |-> e.msg, prev |-> dr, s |-> e.t, ovl |-> ovl,
-                hcI |-> e.hc_interval, hcT |-> e.hc_timeout, pre |-> sv ]
-      sv2  == [sv EXCEPT !.pending = @ \cup {e.c}, !.mess = @ \/ ovl,
+                hcI |-> e.hc_interval, hcT |-> e.hc_timeout, pre |-> sv,
+                binds |-> IF e.kind = "deploy"
+                          THEN {<<x, y>> : x \in (IF e.hosts = <<>> THEN {""} ELSE SetOf(e.hosts)),
+                                           y \in (IF e.paths = <<>> THEN {"/"} ELSE SetOf(e.paths))}
+                          ELSE {} ]
+      groupKinds == DeployKinds \cup {"remove"}
+      pend == {h.cmd[k].kind : k \in sv.pending}
+      ovlD == e.kind \in groupKinds /\ pend \cap groupKinds # {}
+      ovlP == \/ e.kind \in PauseKinds /\ pend \cap (PauseKinds \cup {"remove"}) # {}
+              \/ e.kind = "remove" /\ pend \cap PauseKinds # {}
+      sv2  == [sv EXCEPT !.pending = @ \cup {e.c}, !.mess = @ \/ ovlD, !.messP = @ \/ ovlP,
                          !.pdef = IF e.kind \in PauseKinds THEN FALSE ELSE @]
       cmd2 == [k \in DOMAIN h.cmd |-> IF k \in sv.pending THEN [h.cmd[k] EXCEPT !.ovl = TRUE] ELSE h.cmd[k]]
   IN [h EXCEPT !.cmd = Put(cmd2, e.c, c),
@@ -90,8 +101,11 @@ UpdCmdRet(h, e) ==
                   THEN [h.tg[u] EXCEPT !.retSeq = e.seq, !.retT = e.t, !.retBy = e.c, !.retWhy = why]
                   ELSE h.tg[u]]
       pend2 == sv.pending \ {e.c}
-      sv2   == IF ok /\ c.kind = "remove" THEN [NewSvc EXCEPT !.pending = pend2, !.mess = sv.mess]
+      sv2   == IF ok /\ c.kind = "remove" THEN [NewSvc EXCEPT !.pending = pend2, !.mess = sv.mess, !.messP = sv.messP,
+                                                                  !.binds = sv.binds, !.live = FALSE]
                ELSE [sv EXCEPT
+                 !.binds = IF ok /\ c.kind = "deploy" THEN c.binds ELSE @,
+                 !.live = @ \/ (ok /\ c.kind \in DeployKinds),
                  !.pending = pend2,
                  !.cur  = IF ok /\ c.kind = "deploy" THEN e.c ELSE @,
                  !.curR = IF ok /\ c.kind = "rollout_deploy" THEN e.c ELSE @,
@@ -231,14 +245,14 @@ ChkTgBeg(h, e) ==
       notOk == {u \in c.targets : h.tg[u].okSeq = 0}
   IN  If(notOk # {}, {V("C01_a", e.r, Sig(r), <<"target", e.tg, "group member without a 2xx probe reply", notOk>>)})
    \cup If(c.ret # 0 /\ c.res # "ok", {V("C01_c", e.r, Sig(r), <<"request reached target of failed deploy", e.tg, t.grp>>)})
-   \cup If(r.svc # c.svc, {V("C04_svc", e.r, Sig(r), <<"request for", r.svc, "reached target of", c.svc>>)})
+   \cup If(r.svc # "?" /\ r.svc # c.svc, {V("C04_svc", e.r, Sig(r), <<"request for", r.svc, "reached target of", c.svc>>)})
    \cup If(t.retSeq # 0 /\ t.retWhy = "replaced",      \* (remove does not drain: no promise there)
-           {V("C03_b", e.r, Sig(r), <<"request sent to", e.tg, "after", t.retBy, "returned", t.retWhy>>)})
-   \cup If(~sv.mess /\ sv.pdef /\ sv.pstate = "paused" /\ r.send > h.cmd[sv.pcmd].ret,
+           {V("C03_b", e.r, IF sv.mess THEN "same-service-race" ELSE Sig(r), <<"request sent to", e.tg, "after", t.retBy, "returned", t.retWhy>>)})
+   \cup If(~sv.messP /\ sv.pdef /\ sv.pstate = "paused" /\ r.send > h.cmd[sv.pcmd].ret,
            {V("C07_a", e.r, Sig(r), <<"request sent while paused forwarded before resume", e.tg>>)})
-   \cup If(~sv.mess /\ sv.pdef /\ sv.pstate \in {"paused", "stopped"},
+   \cup If(~sv.messP /\ sv.pdef /\ sv.pstate \in {"paused", "stopped"},
            {V("C03_b", e.r, Sig(r), <<"request sent to drained target while", sv.pstate, e.tg>>)})
-   \cup If(~sv.mess /\ sv.pdef /\ sv.pstate = "stopped",
+   \cup If(~sv.messP /\ sv.pdef /\ sv.pstate = "stopped",
            {V("C08_fwd", e.r, Sig(r), <<"request forwarded while stopped", e.tg>>)})
    \cup If(h.urgent /\ t.repSeq # 0 /\ t.repCls # "ok" /\ e.t > t.repT,
            {V("C09_b", e.r, Sig(r), <<"request sent to target whose latest probe failed", e.tg, t.repCls, t.repT>>)})
@@ -285,6 +299,10 @@ ChkCmdRet(h, g, e) ==
          {V("C17_a", e.c, "", <<"command should not wait", c.callT, e.t>>)})
    \cup If(h.urgent /\ ~c.ovl /\ c.res = "ok" /\ (dk \/ c.kind \in DrainKinds) /\ e.t > bound,
          {V("C17_b", e.c, "", <<"returned later than its condition was met", bound, e.t>>)})
+   \cup (LET s2 == g.svc[c.svc]
+              clash == {x \in DOMAIN g.svc : x # c.svc /\ g.svc[x].live /\ g.svc[x].binds \cap s2.binds # {}}
+          IN If(c.res = "ok" /\ c.kind \in DeployKinds /\ s2.live /\ clash # {},
+                {V("C05_a", e.c, "", <<"after this command", c.svc, "and", clash, "own the same host and path", s2.binds>>)}))
    \cup If(e.res \notin {"ok", "unhealthy", "host_in_use", "not_found", "invalid_target", "cert", "error_pages",
                          "acme_wildcard", "rollout_not_set"},
          {V("C18_panic", e.c, "", <<"command ended abnormally", e.res>>)})
@@ -333,7 +351,7 @@ AllowedAfter(h, r, f, seq) ==
                  /\ h.cmd[j].ret = 0 \/ (h.cmd[j].ret > h.cmd[f].call /\ h.cmd[j].res = "ok")}}
 
 PausePre(h, r, seq) ==
-  /\ Has(h.svc, r.svc) /\ ~h.svc[r.svc].mess
+  /\ Has(h.svc, r.svc) /\ ~h.svc[r.svc].messP
   /\ r.kind \in {"plain", "slow"} /\ r.abort = 0 /\ r.cookie = "" /\ ~r.tls
   /\ r.curAtSend # NoCmd /\ r.pdefAtSend
   /\ \A k \in OtherCalls(h, r, seq) : h.cmd[k].kind = "deploy"
@@ -369,12 +387,12 @@ ChkPause(h, r, rid, e) ==
               {V("C07_b", rid, Sig(r), <<"held request released by resume got", e.status, e.origin, "allowed", AllowedAfter(h, r, f, e.seq)>>)})
         ELSE
            \* C07_c: stopped while held: 503 with the stop message
-           If(~(e.status = 503 /\ e.msg = h.cmd[f].msg),
+           If(~(e.status = 503 /\ e.msg = h.cmd[f].msg /\ ~e.markup),
               {V("C07_c", rid, Sig(r), <<"held request after stop got", e.status, e.msg, "expected 503", h.cmd[f].msg>>)})
   ELSE IF r.pAtSend = "stopped" THEN
      \* C08: definitely stopped and not disturbed: 503 with the operator's message, at once
-     If(P = {} /\ ~(e.status = 503 /\ e.msg = h.cmd[r.pcmdAtSend].msg /\ (h.urgent => e.t = r.sendT)),
-        {V("C08", rid, Sig(r), <<"request while stopped got", e.status, e.msg, "expected 503", h.cmd[r.pcmdAtSend].msg, e.t>>)})
+     If(P = {} /\ ~(e.status = 503 /\ e.msg = h.cmd[r.pcmdAtSend].msg /\ ~e.markup /\ (h.urgent => e.t = r.sendT)),
+        {V("C08", rid, Sig(r), <<"request while stopped got", e.status, e.msg, "markup", e.markup, "expected 503", h.cmd[r.pcmdAtSend].msg, e.t>>)})
   ELSE
      \* C07_f: running at send: a 503 needs a stop during the request's life (or failing targets)
      \* (requests overlapping a redeploy are C02's business, not this one's)
@@ -400,9 +418,10 @@ ChkProbe(h, e) ==
   ELSE
   LET t == h.tg[e.tg]
       c == h.cmd[t.grp]
+      race == IF SvcOf(h, c.svc).mess THEN "same-service-race" ELSE ""
   IN  If(t.retSeq # 0 /\ e.t > t.retT,
-         {V("C17_c", e.tg, "", <<"probe after", t.retBy, t.retWhy, "returned at", t.retT, "probe at", e.t>>)}
-         \cup If(t.retWhy = "failed", {V("C06_b", e.tg, "", <<"rejected target still probed at", e.t>>)}))
+         {V("C17_c", e.tg, race, <<"probe after", t.retBy, t.retWhy, "returned at", t.retT, "probe at", e.t>>)}
+         \cup If(t.retWhy = "failed", {V("C06_b", e.tg, race, <<"rejected target still probed at", e.t>>)}))
    \cup If(h.urgent /\ t.retSeq = 0 /\ t.probeT >= 0 /\ c.hcT < c.hcI /\ e.t - t.probeT # c.hcI,
          {V("C09_a", e.tg, "", <<"probe spacing", t.probeT, e.t, "interval", c.hcI>>)})
 
@@ -458,6 +477,7 @@ Exercised(h, g, e) ==
          \cup If(h.urgent /\ ~c.ovl, {"C17_a"})
          \cup If(h.urgent /\ ~c.ovl /\ c.res = "ok" /\ c.prev # {} /\ \E r \in DOMAIN g.rq : g.rq[r].tg \in c.prev, {"C17_b"})
          \cup {"C18_panic"}
+         \cup If(c.kind \in DeployKinds /\ c.res = "host_in_use", {"C05_a"})
     [] e.ev = "cli_recv" /\ Has(h.rq, e.r) ->
          LET r == g.rq[e.r] IN
          If(C02pre(h, r, e.seq, e.t), {"C02"})
